@@ -84,6 +84,31 @@ def check_gate(out, name, tag, sysnames, ids, do_gate_mat=True, do_el=True, do_e
         okq, Gq = kg.must(sg("generate_qoperation"), qt.generate_qoperation, "gate", name, c, idl)
         if okq and okG:
             kg.close(sg("generate_qoperation-vs-direct"), Gq.hs, G.hs)
+    # the ids may arrive as a tuple (e.g. straight from itertools.permutations): same result as for the list
+    if ids and len(ids) >= 2:
+        tid = tuple(ids)
+        forms = [("unitary_mat", lambda: gt.generate_unitary_mat_from_gate_name(name, dims, tid), U if okU else None),
+                 ("gate", lambda: gt.generate_gate_from_gate_name(name, c, tid).hs, G.hs if okG else None)]
+        if do_gate_mat and len(ids) == 2:
+            forms.append(("gate_mat", lambda: gt.generate_gate_mat_from_gate_name(name, dims, tid), M))
+        if do_el:
+            forms.append(("hamiltonian_mat", lambda: elt.generate_hamiltonian_mat_from_gate_name(name, dims, tid),
+                          A.call(elt.generate_hamiltonian_mat_from_gate_name, name, dims, idl)[1] if True else None))
+            if do_el_heavy and len(ids) == 2:
+                okl0, L0 = A.call(elt.generate_effective_lindbladian_mat_from_gate_name, name, dims, idl)
+                forms.append(("effective_lindbladian_mat", lambda: elt.generate_effective_lindbladian_mat_from_gate_name(name, dims, tid), L0 if okl0 else None))
+                oke0, E0 = A.call(elt.generate_effective_lindbladian_from_gate_name, name, c, idl)
+                forms.append(("effective_lindbladian", lambda: elt.generate_effective_lindbladian_from_gate_name(name, c, tid).hs, E0.hs if oke0 else None))
+        for form, fn, want in forms:
+            if want is None or isinstance(want, Exception):
+                continue
+            okt, got = A.call(fn)
+            out.ops += 1
+            out.count("tuple_ids_forms")
+            if not okt:
+                kg.true(sg("ids-as-tuple:%s:raises" % form), False, "ids=%r as a tuple: %s" % (tid, A.fmt_exc(got)))
+            else:
+                kg.close(sg("ids-as-tuple:%s:differs-from-list-form" % form), got, want)
     if not do_el:
         return G if okG else None
     # ---- effective Lindbladian catalogue mirrored against the gate
